@@ -10,12 +10,14 @@ import (
 	"verif/props/c01"
 	"verif/props/c02"
 	"verif/props/c03"
+	"verif/props/c04"
 )
 
 var registry = map[string]func(fw.Config, *fw.Rec){
 	"C01": c01.Run,
 	"C02": c02.Run,
 	"C03": c03.Run,
+	"C04": c04.Run,
 }
 
 func main() {
